@@ -49,6 +49,7 @@ type absVal struct {
 	MRaw json.RawMessage    `json:"m"`
 	Name string             `json:"name"`
 	Kind string             `json:"kind"`
+	Go   string             `json:"go"`
 	Ps   []string           `json:"ps"`
 }
 
@@ -109,6 +110,28 @@ func materialize(a absVal, env *runEnv) interface{} {
 	case "flt":
 		return float64(a.Num) / float64(uint64(1)<<a.Exp)
 	case "arr":
+		switch a.Go {
+		case "strs":
+			xs := make([]string, 0, len(a.Xs))
+			for _, x := range a.Xs {
+				xs = append(xs, decodeChars(x.S))
+			}
+			return xs
+		case "ints":
+			xs := make([]int, 0, len(a.Xs))
+			for _, x := range a.Xs {
+				xs = append(xs, x.N)
+			}
+			return xs
+		case "array":
+			var arr [2]int
+			for i, x := range a.Xs {
+				if i < 2 {
+					arr[i] = x.N
+				}
+			}
+			return arr
+		}
 		xs := make([]interface{}, 0, len(a.Xs))
 		for _, x := range a.Xs {
 			xs = append(xs, materialize(x, env))
